@@ -40,6 +40,29 @@ import props  # noqa: E402
 from props import PROPS  # noqa: E402  (per-property tables: level, rule, minimums, stages)
 
 ENV = dict(os.environ)
+
+
+def run_grp(cmd, timeout=None, **kw):
+    """subprocess.run(capture_output=True, text=True) in its OWN process group: on a timeout the whole
+    group is killed (cargo -> miri / fuzz target / forked monitor children keep the pipes open otherwise
+    and the watchdog itself would hang)."""
+    import signal
+    kw.pop("capture_output", None)
+    kw.setdefault("text", True)
+    p = subprocess.Popen(cmd, stdout=subprocess.PIPE, stderr=subprocess.PIPE, start_new_session=True, **kw)
+    try:
+        so, se = p.communicate(timeout=timeout)
+    except subprocess.TimeoutExpired:
+        try:
+            os.killpg(p.pid, signal.SIGKILL)
+        except (ProcessLookupError, PermissionError):
+            pass
+        try:
+            so, se = p.communicate(timeout=30)
+        except Exception:
+            so, se = "", ""
+        raise subprocess.TimeoutExpired(cmd, timeout, output=so, stderr=se)
+    return subprocess.CompletedProcess(cmd, p.returncode, so, se)
 ENV["CARGO_NET_OFFLINE"] = "true"
 ENV.setdefault("CARGO_TERM_COLOR", "never")
 
@@ -152,7 +175,7 @@ def run_mon(binary, prop, tier, seed, stage, timeout, extra_args=(), env_extra=N
         env.update(env_extra)
     t0 = time.time()
     try:
-        r = subprocess.run(cmd, cwd=HERE, env=env, capture_output=True, text=True, timeout=timeout)
+        r = run_grp(cmd, cwd=HERE, env=env, timeout=timeout)
         rc, err, so = r.returncode, r.stderr, r.stdout
     except subprocess.TimeoutExpired as e:
         rc, err, so = -999, "watchdog: timeout after %ss" % timeout, ""
